@@ -10,11 +10,12 @@ import json, os, re, subprocess, sys, shutil, concurrent.futures as cf
 jobs = int(sys.argv[1]) if len(sys.argv) > 1 else 4
 only = sys.argv[2] if len(sys.argv) > 2 else ""
 ROOT = "/verif"
-names = sorted(n for n in os.listdir(f"{ROOT}/seeded") if os.path.exists(f"{ROOT}/seeded/{n}/patch.diff") and only in n)
+SEEDED = os.environ.get("SEEDED_DIR", ROOT + "/seeded")  # candidates not yet saved can be staged elsewhere
+names = sorted(n for n in os.listdir(SEEDED) if os.path.exists(f"{SEEDED}/{n}/patch.diff") and only in n)
 env = dict(os.environ, GOFLAGS="-mod=mod", GOPROXY="off", GOSUMDB="off", GOTOOLCHAIN="local")
 
 def run(name):
-    meta = json.load(open(f"{ROOT}/seeded/{name}/meta.json"))
+    meta = json.load(open(f"{SEEDED}/{name}/meta.json"))
     checks = sorted(set(re.findall(r"(C\d\d) quick", meta.get("caught_by", "")))) or [name[:3]]
     neutral = "status_after_fix_c2c62b7" in meta
     base = f"/tmp/reg/{name}"
@@ -25,9 +26,9 @@ def run(name):
     try:
         subprocess.run(["git", "-C", "/repo", "worktree", "add", "-q", "--detach", wt, "HEAD"], check=True, capture_output=True)
         subprocess.run(["rsync", "-a", "--exclude", ".work", "--exclude", ".bin", "--exclude", ".git", "--exclude", "seeded", "--exclude", "replays", ROOT + "/", vf + "/"], check=True)
-        ap = subprocess.run(["git", "-C", wt, "apply", "--3way", f"{ROOT}/seeded/{name}/patch.diff"], capture_output=True, text=True)
+        ap = subprocess.run(["git", "-C", wt, "apply", "--3way", f"{SEEDED}/{name}/patch.diff"], capture_output=True, text=True)
         if ap.returncode != 0:
-            ap = subprocess.run(["git", "-C", wt, "apply", f"{ROOT}/seeded/{name}/patch.diff"], capture_output=True, text=True)
+            ap = subprocess.run(["git", "-C", wt, "apply", f"{SEEDED}/{name}/patch.diff"], capture_output=True, text=True)
         if ap.returncode != 0:
             return [(name, "-", "APPLY-FAILED", ap.stderr.strip()[:200])]
         for c in checks:
